@@ -263,49 +263,45 @@ def sboxOut (n : Nat) (x : Bits) : Except Err Nat := do
   let v ← Des.S n ((i <<< 4) + j)
   pure ((ofNatSz v.ival 4).pick [3, 2, 1, 0]).ival
 
-/-- `rks[n][v] = w` (indices in range by construction) -/
+/-- `t[n][v] = w` (indices in range by construction) -/
 def set2 (t : List (List Nat)) (n v w : Nat) : List (List Nat) := t.set n ((t.getD n []).set v w)
 
-/-- `for n in range(8): x = re^nfk[n]; …; rks[n][re] = …` -/
-def rksInner (nfk : List Bits) (re : Bits) : List Nat → List (List Nat) → Except Err (List (List Nat))
-  | [], rks => .ok rks
-  | n :: ns, rks => do
-      let k ← pyIdx nfk n
-      let w ← sboxOut n (re.xor k)
-      rksInner nfk re ns (set2 rks n re.ival w)
+/-- the inner loop shared by `table_rKS` and `table_rKT`: `for n in ns: t[n][idx] = entry(n)` -/
+def tabInner (entry : Nat → Except Err Nat) (idx : Nat) : List Nat → List (List Nat) → Except Err (List (List Nat))
+  | [], t => .ok t
+  | n :: ns, t => do
+      let w ← entry n
+      tabInner entry idx ns (set2 t n idx w)
 
-/-- `for v in range(64): re = Bits(v,6); (inner)` -/
-def rksOuter (nfk : List Bits) : List Nat → List (List Nat) → Except Err (List (List Nat))
-  | [], rks => .ok rks
-  | v :: vs, rks => do
-      let rks' ← rksInner nfk (ofNatSz v 6) (List.range 8) rks
-      rksOuter nfk vs rks'
+/-- the outer loop: `for v in vs: re = Bits(v,w); for n in range(8): t[n][re] = entry(v,n)` (`idx v` = `re.__index__()`) -/
+def tabOuter (entry : Nat → Nat → Except Err Nat) (idx : Nat → Nat) : List Nat → List (List Nat) → Except Err (List (List Nat))
+  | [], t => .ok t
+  | v :: vs, t => do
+      let t' ← tabInner (entry v) (idx v) (List.range 8) t
+      tabOuter entry idx vs t'
+
+/-- `re = Bits(v,6); x = re^nfk[n]; …; rks[n][re] = Bits(S(n,(i<<4)+j),4)[::-1].ival` -/
+def rksEntry (nfk : List Bits) (v n : Nat) : Except Err Nat := do
+  let k ← pyIdx nfk n
+  sboxOut n ((ofNatSz v 6).xor k)
 
 /-- `table_rKS(r,K)` -/
 def tableRKS (r : Nat) (K : Bits) : Except Err (List (List Nat)) := do
   let fk ← Des.subkey (Des.PC1 K) r
   let nfk ← fk.split 6
-  rksOuter nfk (List.range 64) (List.replicate 8 (List.replicate 64 0))
+  tabOuter (rksEntry nfk) (fun v => (ofNatSz v 6).ival) (List.range 64) (List.replicate 8 (List.replicate 64 0))
 
-/-- `for n in range(8): x = Bits(rks[n][re[0:6].ival],4)//re[(0,5,6,7)]; rkt[n][re.ival] = x.ival` -/
-def rktInner (rks : List (List Nat)) (re : Bits) : List Nat → List (List Nat) → Except Err (List (List Nat))
-  | [], rkt => .ok rkt
-  | n :: ns, rkt => do
-      let row ← pyIdx rks n
-      let s ← pyIdx row (re.sliceFast 0 6).ival
-      let x := (ofNatSz s 4).concat (re.pick [0, 5, 6, 7])
-      rktInner rks re ns (set2 rkt n re.ival x.ival)
-
-def rktOuter (rks : List (List Nat)) : List Nat → List (List Nat) → Except Err (List (List Nat))
-  | [], rkt => .ok rkt
-  | v :: vs, rkt => do
-      let rkt' ← rktInner rks (ofNatSz v 8) (List.range 8) rkt
-      rktOuter rks vs rkt'
+/-- `re = Bits(v,8); x = Bits(rks[n][re[0:6].ival],4)//re[(0,5,6,7)]; rkt[n][re.ival] = x.ival` -/
+def rktEntry (rks : List (List Nat)) (v n : Nat) : Except Err Nat := do
+  let re := ofNatSz v 8
+  let row ← pyIdx rks n
+  let s ← pyIdx row (re.sliceFast 0 6).ival
+  pure ((ofNatSz s 4).concat (re.pick [0, 5, 6, 7])).ival
 
 /-- `table_rKT(r,K)` → (rks, rkt) -/
 def tableRKT (r : Nat) (K : Bits) : Except Err (List (List Nat) × List (List Nat)) := do
   let rks ← tableRKS r K
-  let rkt ← rktOuter rks (List.range 256) (List.replicate 12 (List.range 256))
+  let rkt ← tabOuter (rktEntry rks) (fun v => (ofNatSz v 8).ival) (List.range 256) (List.replicate 12 (List.range 256))
   pure (rks, rkt)
 
 /-- `KT = [table_rKT(r,K)[1] for r in range(16)]` (tests/test_des.py) -/
